@@ -18,8 +18,8 @@ EXPLANATION = ("Decided clauses: the JVM primitive table (Z,B,C,S,I,J,F,D,V -> k
                "none); the guards of the signature splitter (leading '(', last ')', non-empty return type, ';'-terminated object types, all "
                "slicing through get()); assembly (parameters = non-empty tokens converted in order, dropped if unconvertible; return type "
                "mandatory) and format_signature ('(' + join(\", \") + ')' and ': ' + ret unless empty or void); mapper and cache copies "
-               "are alpha-equivalent modulo receiver. NOT decided: that the index bookkeeping of the tokenizer loop (first_idx / last_idx) "
-               "cuts a descriptor exactly at type boundaries for every input (runtime index arithmetic over a recursive language).")
+               "are alpha-equivalent modulo receiver. slice bounds are byte offsets only (no item counts). NOT decided: that the index bookkeeping of the tokenizer loop "
+               "(first_idx / last_idx) cuts a descriptor exactly at type boundaries for every input (runtime index arithmetic over a recursive language).")
 RULE_TEXT = R1.RULE_TEXT
 TRUSTED = R1.TRUSTED
 
@@ -208,6 +208,61 @@ def check_splitter_guards(fx, rep, rule):
               found="%d raw index/slice operations, %d get(..) calls" % (len(idxs), len(gets)), expected="all slicing by computed byte indices goes through str::get(..)?", nontrivial=False)
 
 
+def byte_offset(n, fam, seen=None):
+    """reason if the usize expression is a byte offset into the scanned str (char_indices index, str len,
+    literal, or a sum of those); None if it mixes in anything else (e.g. an item count from position())"""
+    seen = seen or set()
+    n = FL.peel(n)
+    if C.int_lit(n) is not None:
+        return "literal"
+    if F.is_call(n, "core::str::<impl str>::len"):
+        return "str len"
+    if n.get("k") == "Binary" and n["op"] == "Add":
+        a, b = byte_offset(n["l"], fam, seen), byte_offset(n["r"], fam, seen)
+        return "sum" if (a and b) else None
+    if n.get("k") in ("Var", "Upvar"):
+        if n["id"] in seen:
+            return "cyclic"
+        seen = seen | {n["id"]}
+        srcs = fam.origins.sources(n["id"])
+        if not srcs:
+            return None
+        for path, expr, how in srcs:
+            if how == "assign" or (how == "let" and path == ()):
+                if expr is None or byte_offset(expr, fam, seen) is None:
+                    return None
+            elif how in ("match", "iflet", "let") and expr is not None:
+                r = C.payload_is_index(expr, path, fam, seen)
+                if not r or "char_indices" not in r:
+                    return None
+            else:
+                return None
+        return "byte offset"
+    return None
+
+
+def check_byte_offsets(fx, rep, rule):
+    """C16.3: every bound used to slice the descriptor is a byte offset (char_indices indices, literals, len):
+    mixing in an item count (position(), enumerate()) is a unit error for non-ASCII names"""
+    p = A.func(fx, "java", "parse_obfuscated_bytecode_signature")
+    if len(p) != 1:
+        return
+    b = fx.bodies[p[0]]
+    fam = C.Family(fx, p[0])
+    n_b = 0
+    for n in F.walk(b["body"]):
+        if F.is_call(n, "core::str::<impl str>::get"):
+            rng = F.strip(n["args"][1])
+            if rng.get("k") == "Adt":
+                for f in rng["fields"]:
+                    n_b += 1
+                    r = byte_offset(f["e"], fam)
+                    rep.check(rule, "%s/splitter/byte-offset/%s/%s" % (rule, f["name"], C.canon(f["e"])), r is not None, loc=F.loc(n),
+                              found="slice bound %s = %s%s" % (f["name"], F.pp(f["e"]), (" (%s)" % r) if r else " mixes in a value that is not a byte offset"),
+                              expected="slice bounds are byte offsets: char_indices() indices, literals, str len, and sums of those")
+    rep.floor(rule + "/byte-offset", n_b, 4, "slice bounds in the descriptor splitter")
+
+
 def check_assembly(fx, rep, rule, name, conv_name):
     p = A.one(rep, rule, "java::" + name, A.func(fx, "java", name))
     if not p:
@@ -312,6 +367,7 @@ def run(ctx, rep):
         check_type_renderer(fx, rep, "C16.2", "byte_code_type_to_java_type", rm[0], prim)
         check_type_renderer(fx, rep, "C16.2", "byte_code_type_to_java_type_cache", rc[0], prim)
     check_splitter_guards(fx, rep, "C16.3")
+    check_byte_offsets(fx, rep, "C16.3")
     check_assembly(fx, rep, "C16.4", "deobfuscate_bytecode_signature", "byte_code_type_to_java_type")
     check_assembly(fx, rep, "C16.4", "deobfuscate_bytecode_signature_cache", "byte_code_type_to_java_type_cache")
     check_format_signature(fx, rep, "C16.4")
